@@ -591,7 +591,8 @@ func check(args []string) int {
 		"evaluations":         a.evaluations,
 		"distinct_nontrivial": len(a.nontrivial),
 		"rule": "one evaluation = one simulated run (one OS process, one synctest bubble) of the real go-dcp + gocbcore code against the simulated cluster, every choice drawn from the seed's tape; " +
-			"distinct = distinct abstract traces (sha256 of the sequence of chosen action kinds with vBucket/key/member identities dropped); non-trivial = the run hit at least one of the property's reach probes",
+			"distinct = distinct abstract traces (sha256 of the sequence of chosen action kinds with vBucket/key/member identities dropped); non-trivial = the run hit at least one of the property's reach probes; " +
+			"distinct_states = distinct abstract step effects (kind of the chosen action => set of kinds of what the system did in response during that step, identities dropped)",
 		"samples":                a.samples,
 		"distinct_traces":        len(a.traces),
 		"distinct_states":        len(a.states),
@@ -612,12 +613,7 @@ func check(args []string) int {
 		"known_findings_hit":     a.knownHit,
 		"violations_reported":    reported,
 		"rule_hit_counts":        a.violCount,
-		"components": map[string]any{
-			"real": []string{"go-dcp: dcp.go stream/* couchbase/{observer,rollback_mitigation,client,metadata,doc_op,async_op,membership,healthcheck}.go metadata/* membership/* api metric helpers wrapper models config",
-				"github.com/couchbase/gocbcore/v10 v10.5.2 (memd dial hook only)", "github.com/asaskevich/EventBus (mutexes made durable)", "concurrent-swiss-map, errgroup, prometheus client"},
-			"stub": []string{"Couchbase Server (simulated cluster: KV, sub-document, DCP producer, failover table, OBSERVE_SEQNO, collections, CCCP)", "HTTP /pools discovery (version/bucket info are scenario parameters)",
-				"TCP (in-memory pipes)", "clock (synctest bubble)", "disk for the file backend (simulated)", "sonic JSON codec runs in its encoding/json fallback under go1.26"},
-		},
+		"components": componentsOf(*prop),
 	}
 	ev := Evidence{PropertyID: *prop, Tier: *tier, Seed: base, Level: spec.level, Coverage: cov, WallS: wall, Violations: len(reported),
 		Assumptions: append([]string{
@@ -818,4 +814,11 @@ func main() {
 		fmt.Fprintln(os.Stderr, "unknown command")
 		os.Exit(2)
 	}
+}
+
+func componentsOf(prop string) map[string]any {
+	if o, ok := componentOverrides[prop]; ok {
+		return map[string]any{"real": o[0], "stub": o[1]}
+	}
+	return map[string]any{"real": defaultReal, "stub": defaultStub}
 }
